@@ -52,9 +52,10 @@
 (*          that is observed afterwards, "m" with (map (lambda (p) ...))   *)
 (*          over a list that is observed afterwards, "k" directly, with a  *)
 (*          continuation captured while                                    *)
-(*          the operand is an evaluated temporary: the update runs twice   *)
-(*          (first with the alternative trailing argument `alt`, then -    *)
-(*          after re-entering the continuation - with the real one)        *)
+(*          the operand is an evaluated temporary: the update runs three   *)
+(*          times (with the alternative trailing argument `alt`, then -    *)
+(*          after re-entering the continuation - with `alt` again, then -  *)
+(*          after re-entering it once more - with the real one)            *)
 (*   upd2   a new alias holding op2(alias i, alias i2) (union / append of  *)
 (*          two aliases, possibly the same one twice)                      *)
 (*   reobs  observe alias i once more through a fresh local                *)
@@ -108,6 +109,7 @@ CONSTANTS FAMS,       \* subset of {"alias", "loop"}
           VIAS,       \* subset of {"d", "f", "g", "a", "m", "k"}
           ACTS,       \* subset of {"base", "share", "upd", "upd2", "reobs"}
           MAXBASE, MAXLEN,
+          BASESET,    \* "small" | "big"
           LOOPN, LOOPEVERY, LOOPSTYLES
 
 VARIABLES fam, ty, al, hist, k, code, lp
@@ -200,7 +202,8 @@ NoOp == Op("-", 0, 0, 0)
 \* The elements / values an operation inserts are different for every action number m (90 + m, 30 + m ...), so
 \* that two updates of the same object at different steps are distinguishable.
 HashOps(c, m) == LET n == Cardinality(c.e) IN
-     (IF n < MAXLEN THEN {Op("ins", 30 + m, 3, 770 + m), Op("ins", 110 + m, 1, 770 + m)} ELSE {})
+     \* (hash-insert $v key value): the KEY is the trailing argument a (3: new, 1: present in most bases), b the value
+     (IF n < MAXLEN THEN {Op("ins", 3, 30 + m, 7), Op("ins", 1, 110 + m, 7)} ELSE {})
   \cup {Op("rem", 1, 0, 2), Op("rem", 4, 0, 2), Op("unionL", 1, 0, 0), Op("clear", 0, 0, 0)}
   \cup (IF n + 2 <= MAXLEN THEN {Op("unionR", 1, 0, 2)} ELSE {})
 HsetOps(c, m) == LET n == Cardinality(c.e) IN
@@ -238,7 +241,7 @@ Step(c, op, a) ==
       H(f) == Coll("hash", << >>, f)   S(f) == Coll("hset", << >>, f)
       V(t) == Coll("ivec", t, {})      L(t) == Coll("list", t, {})     T(t) == Coll("str", t, {}) IN
   CASE c.ty = "hash" ->
-         (CASE op.o = "ins"    -> H(MapPut(c.e, op.b, a))
+         (CASE op.o = "ins"    -> H(MapPut(c.e, a, op.b))
             [] op.o = "rem"    -> H({p \in c.e : p[1] # a})
             [] op.o = "unionR" -> H(MapUnion(c.e, ConstMap(a)))
             [] op.o = "unionL" -> H(MapUnion(ConstMap(op.a), c.e))
@@ -276,7 +279,7 @@ Step(c, op, a) ==
 \* Scheme text of the operation: $v the collection operand, $a the trailing argument
 Tpl(t, op) ==
   CASE t = "hash" ->
-         (CASE op.o = "ins"    -> "(hash-insert $v " \o ToString(op.b) \o " $a)"
+         (CASE op.o = "ins"    -> "(hash-insert $v $a " \o ToString(op.b) \o ")"
             [] op.o = "rem"    -> "(hash-remove $v $a)"
             [] op.o = "unionR" -> "(hash-union $v $a)"
             [] op.o = "unionL" -> "(hash-union " \o SrcMap(ConstMap(op.a)) \o " $v)"
@@ -337,7 +340,7 @@ OpTag(t, op) == t \o ":" \o op.o
 -----------------------------------------------------------------------------
 (* Base values: at most 3 different constructions per type; "const" marks a   *)
 (* literal that lives in the constant pool of the compiled function           *)
-Bases == [
+SmallBases == [
   hash |-> << [v |-> Coll("hash", << >>, {<<1, 10>>, <<2, 20>>}), src |-> "(hash 1 10 2 20)", how |-> "fresh"],
               [v |-> Coll("hash", << >>, {}), src |-> "(hash)", how |-> "fresh"],
               [v |-> Coll("hash", << >>, {<<1, 10>>, <<2, 20>>}), src |-> "(hash-insert (hash-insert (hash) 2 20) 1 10)", how |-> "built"] >>,
@@ -353,6 +356,25 @@ Bases == [
   str  |-> << [v |-> Coll("str", <<"a", "b", "c">>, {}), src |-> "(string-append \"ab\" (opaque \"c\"))", how |-> "fresh"],
               [v |-> Coll("str", << >>, {}), src |-> "(string)", how |-> "fresh"],
               [v |-> Coll("str", <<"a", "b", "c">>, {}), src |-> "\"abc\"", how |-> "const"] >> ]
+
+\* BASESET = "big": values of BIGN elements built by loops - several chunks of the unrolled list, more than one
+\* node of the vector / hash tries - so that in-place updates of INNER nodes shared between versions are exercised
+BIGN == 70
+BigInts == [i \in 1..BIGN |-> i]
+BigBases == [
+  hash |-> << [v |-> Coll("hash", << >>, {<<i, i * 10>> : i \in 1..BIGN}), how |-> "loop",
+               src |-> "(let loop ((i 1) (acc (hash))) (if (> i 70) acc (loop (+ i 1) (hash-insert acc i (* i 10)))))"] >>,
+  hset |-> << [v |-> Coll("hset", << >>, 1..BIGN), how |-> "loop",
+               src |-> "(let loop ((i 1) (acc (hashset))) (if (> i 70) acc (loop (+ i 1) (hashset-insert acc i))))"] >>,
+  ivec |-> << [v |-> Coll("ivec", BigInts, {}), how |-> "loop",
+               src |-> "(let loop ((i 1) (acc (immutable-vector))) (if (> i 70) acc (loop (+ i 1) (immutable-vector-push acc i))))"],
+              [v |-> Coll("ivec", BigInts, {}), how |-> "built", src |-> "(list->vector (range 1 71))"] >>,
+  list |-> << [v |-> Coll("list", BigInts, {}), how |-> "loop",
+               src |-> "(let loop ((i 70) (acc (list))) (if (< i 1) acc (loop (- i 1) (cons i acc))))"],
+              [v |-> Coll("list", BigInts, {}), how |-> "built", src |-> "(range 1 71)"] >>,
+  str  |-> << [v |-> Coll("str", [i \in 1..BIGN |-> Alphabet[((i - 1) % 26) + 1]], {}), how |-> "loop",
+               src |-> "(let loop ((i 0) (acc (string))) (if (>= i 70) acc (loop (+ i 1) (string-push acc (integer->char (+ 97 (modulo i 26)))))))"] >> ]
+Bases == IF BASESET = "big" THEN BigBases ELSE SmallBases
 
 \* later base values (action "base" after the first one) are DIFFERENT values, so that binary updates of two
 \* aliases are distinguishable from updates of one
@@ -549,8 +571,10 @@ Immutable == [][/\ \A j \in 1..Len(al) : al'[j].v = al[j].v
 ObsAfter(n) == LET ids == SelectSeq([j \in 1..Len(al) |-> j],
                                     LAMBDA j : al[j].born <= n /\ (al[j].dead = 0 \/ al[j].dead > n)) IN
                Force([x \in 1..Len(ids) |-> [id |-> ids[x], exp |-> ObsE(al[ids[x]].v)]])
-\* observations made INSIDE a step (via "k": first pass, second pass; via "g": the parameter after the update; reobs)
-Pre(h) == CASE h.a = "upd" /\ h.via = "k" -> <<Obs(Step(al[h.i].v, h.op, h.op.alt)), Obs(Step(al[h.i].v, h.op, h.op.a))>>
+\* observations made INSIDE a step (via "k": first pass (alt), second pass after re-entry (alt again), third pass after
+\* another re-entry (the real argument); via "g" / "a" / "m": the operand after the update; reobs)
+Pre(h) == CASE h.a = "upd" /\ h.via = "k" -> <<Obs(Step(al[h.i].v, h.op, h.op.alt)), Obs(Step(al[h.i].v, h.op, h.op.alt)),
+                                              Obs(Step(al[h.i].v, h.op, h.op.a))>>
             [] h.a = "upd" /\ h.via \in {"g", "a", "m"} -> <<Obs(al[h.i].v)>>
             [] h.a = "reobs"              -> <<Obs(al[h.i].v)>>
             [] OTHER                      -> << >>
